@@ -20,7 +20,7 @@ fn perturb(w: &DpWorld, r: &mut Rng, variant: u64) -> DpWorld {
     match variant {
         0 => {
             // everything protected is re-drawn: half of the rows dropped, values re-drawn, a new unit added
-            for name in ["users", "orders", "items", "events"] {
+            for name in ["users", "orders", "items", "events", "visits"] {
                 let t = w2.cat.table_mut(name).unwrap();
                 let cols = t.cols.clone();
                 let mut rows = vec![];
@@ -88,7 +88,7 @@ fn perturb(w: &DpWorld, r: &mut Rng, variant: u64) -> DpWorld {
         }
         _ => {
             // all protected tables emptied
-            for name in ["users", "orders", "items", "events"] {
+            for name in ["users", "orders", "items", "events", "visits"] {
                 w2.cat.table_mut(name).unwrap().rows.clear();
             }
         }
